@@ -271,7 +271,7 @@ func (c c02case) String() string {
 		ss = " V=" + c02actorDocs()[c.actorDoc-1].name
 	}
 	if c.shapeTyp != "" {
-		ss = fmt.Sprintf(" S=%s/%s", c.shapeTyp, []string{"one-member", "no-items-member", "empty-items", "two-members"}[c.shape])
+		ss = fmt.Sprintf(" S=%s/%s", c.shapeTyp, []string{"one-member", "no-items-member", "empty-items", "two-members", "three-members", "four-members-one-repeated"}[c.shape])
 	}
 	if c.senderStored {
 		ss += " sender-inbox-stored"
@@ -354,6 +354,10 @@ func C02(tier string) int {
 	} else {
 		k1s = append(k1s, []string{Carol, gK2}, []string{gP1, Erin}, []string{gK1, Frank}, []string{gMissing, Carol}, []string{Carol, gMissing})
 	}
+	// collections of three and four members (a member missing in the middle, a repeated member, nested
+	// collections between actors)
+	k1s = append(k1s, []string{Carol, Erin, Frank}, []string{Carol, gMissing, Erin}, []string{Erin, gK2, Frank}, []string{Carol, Erin, Frank, Carol},
+		[]string{Frank, gMissing, gP1, Erin}, []string{Alice, Carol, Erin, Frank})
 	var cases []c02case
 	touchesCollections := func(es []c02entry) bool {
 		for _, e := range es {
@@ -420,7 +424,7 @@ func C02(tier string) int {
 	// usual paged collection: totalItems + first), an empty array, one or two members; addressed
 	// directly before / after a plain actor, or reached as the only member of K1
 	for _, typ := range []string{"Collection", "OrderedCollection", "CollectionPage", "OrderedCollectionPage"} {
-		for shape := 0; shape < 4; shape++ {
+		for shape := 0; shape < 6; shape++ {
 			for _, lim := range limits {
 				for _, ent := range []string{"Send", "PostOutbox"} {
 					X, C := c02entry{id: gShape}, c02entry{id: Carol}
@@ -455,7 +459,7 @@ func C02(tier string) int {
 		}
 		cases = append(cases, c02case{entries: []c02entry{sp, {id: Erin}}, placement: 1, k1: []string{Carol, gK2}, limit: 2, entry: "PostOutbox"})
 	}
-	res.Rule = fmt.Sprintf("federation graphs over {dereferencable actor, embedded actor, actor with stored inbox (remote inbox differing), actor with stored = remote inbox, missing, garbled, unknown-type, Collection K1 with every member sequence of length <= %d over 8 nodes, OrderedCollection K2 = [actor, K1], page P1 = [actor, P1, K2] (cycles), Public in both IRI spellings, the sender (named directly or as a member; with and without an inbox of its own stored by the application)}; plus every addressing sequence of length 3-4 over {plain actor, two actors with an application-stored inbox, collection, unreachable actor, sender}; plus an actor-document family (the remote actor published as Service / Group / Organization / Application, with two types (known or unknown first), with its inbox spelled as an embedded OrderedCollection / page, with a sharedInbox endpoint, with a public key under the security context, Mastodon-like with extension terms, with unknown and near-miss members, under an aliased context); plus a collection-shape family (each of Collection / OrderedCollection / CollectionPage / OrderedCollectionPage with its items member absent (totalItems + first only), empty, one or two members; addressed directly, next to actors, or reached through K1) and a reference-spelling family (an entry written as an embedded Mention with href only, or as an embedded Link with id and a decoy href, alone and paired with every alphabet entry); every ordered sequence of <= %d addressed entries over that 15-entry alphabet, placed in 'to' only / spread over to,bto,cc,bcc,audience / reversed; depth limit %v; entry points Send and client POST; %d runs; plus all two-delivery histories through one actor instance over 2 senders x 5 addressees (first) x 25 addressee pairs (second); oracle: an independent recursive function over the graph description gives the expected inbox set and the IRIs that may be dereferenced; non-trivial = runs in which something was dereferenced or delivered, distinct by (entries, placement, K1, limit)", len(k1s[len(k1s)-1]), maxEntries, limits, len(cases))
+	res.Rule = fmt.Sprintf("federation graphs over {dereferencable actor, embedded actor, actor with stored inbox (remote inbox differing), actor with stored = remote inbox, missing, garbled, unknown-type, Collection K1 with every member sequence of length <= %d over 8 nodes and six member sequences of length 3-4, OrderedCollection K2 = [actor, K1], page P1 = [actor, P1, K2] (cycles), Public in both IRI spellings, the sender (named directly or as a member; with and without an inbox of its own stored by the application)}; plus every addressing sequence of length 3-4 over {plain actor, two actors with an application-stored inbox, collection, unreachable actor, sender}; plus an actor-document family (the remote actor published as Service / Group / Organization / Application, with two types (known or unknown first), with its inbox spelled as an embedded OrderedCollection / page, with a sharedInbox endpoint, with a public key under the security context, Mastodon-like with extension terms, with unknown and near-miss members, under an aliased context); plus a collection-shape family (each of Collection / OrderedCollection / CollectionPage / OrderedCollectionPage with its items member absent (totalItems + first only), empty, one, two, three or four (one repeated) members; addressed directly, next to actors, or reached through K1) and a reference-spelling family (an entry written as an embedded Mention with href only, or as an embedded Link with id and a decoy href, alone and paired with every alphabet entry); every ordered sequence of <= %d addressed entries over that 15-entry alphabet, placed in 'to' only / spread over to,bto,cc,bcc,audience / reversed; depth limit %v; entry points Send and client POST; %d runs; plus all two-delivery histories through one actor instance over 2 senders x 5 addressees (first) x 25 addressee pairs (second); oracle: an independent recursive function over the graph description gives the expected inbox set and the IRIs that may be dereferenced; non-trivial = runs in which something was dereferenced or delivered, distinct by (entries, placement, K1, limit)", map[bool]int{false: 1, true: 2}[res.Thorough()], maxEntries, limits, len(cases))
 	res.Assumptions = []string{"order of recipients and how often one IRI is dereferenced are not asserted",
 		"documents that decode to a known non-actor type or to an actor without inbox are outside the alphabet (the statement is silent; C11 covers crashes)",
 		"the stored inbox is consulted for directly addressed actors only, as the code does; collection members with a stored inbox have stored == remote inbox"}
@@ -488,6 +492,10 @@ func C02(tier string) int {
 					n.shape = c.shape
 				case 3:
 					n.members = []string{Frank, Erin}
+				case 4:
+					n.members = []string{Frank, Erin, Carol}
+				case 5:
+					n.members = []string{Frank, Erin, Frank, Carol}
 				}
 				g[gShape] = n
 			}
